@@ -60,7 +60,7 @@ func c16Base(sc c16Scale) int {
 }
 
 type c16Case struct {
-	Kind string    `json:"kind"` // "scale", "qq", "newlog"
+	Kind string    `json:"kind"` // "scale", "qq", "newlog", "nice"
 	A    c16Scale  `json:"a"`
 	B    *c16Scale `json:"b,omitempty"` // qq: destination
 	// qq: 1 = Dest is the very same object as Src (B is ignored), 2 = Dest is
@@ -72,6 +72,17 @@ type c16Case struct {
 	Lo   mon.F   `json:"lo"` // newlog
 	Hi   mon.F   `json:"hi"`
 	Base int     `json:"base"`
+	// nice: A is the domain the object is built on; then Nice(TickOptions{Max:N})
+	// runs and the judged domain is the Min/Max read back from the object. Pre:
+	// bit 0 built by NewLog (Log), bit 1 SetClamp before Nice (else after), bit 2
+	// Map and Unmap used once before Nice. The arguments of Map are derived from
+	// the niced domain: the end points, the affine parameters Ts (c16At) and the
+	// offsets Ds from both end points (c16Near); when Ts and Ds are both empty
+	// (a recorded violation) Xs is used as it is.
+	N   int     `json:"n,omitempty"`
+	Pre int     `json:"pre,omitempty"`
+	Ts  []mon.F `json:"ts,omitempty"`
+	Ds  []mon.F `json:"ds,omitempty"`
 }
 
 func init() {
@@ -91,6 +102,8 @@ func c16Judge(w *mon.W, c c16Case) {
 		c16JudgeQQ(w, c)
 	case "newlog":
 		c16JudgeNewLog(w, c)
+	case "nice":
+		c16JudgeNice(w, c)
 	}
 }
 
@@ -366,7 +379,18 @@ type c16Pt struct {
 	yb                 *big.Float
 }
 
-func c16JudgeScale(w *mon.W, c c16Case) {
+// c16Pre is a library object that was built (and put through a history) by
+// the caller of c16JudgeScaleObj: the case c then describes the domain the
+// object reports, outer is the replayable case and note the history.
+type c16Pre struct {
+	q     scale.Quantitative
+	outer c16Case
+	note  string
+}
+
+func c16JudgeScale(w *mon.W, c c16Case) { c16JudgeScaleObj(w, c, nil) }
+
+func c16JudgeScaleObj(w *mon.W, c c16Case, pre *c16Pre) {
 	sc := c.A
 	min, max := float64(sc.Min), float64(sc.Max)
 	name := c16Name(sc)
@@ -375,13 +399,23 @@ func c16JudgeScale(w *mon.W, c c16Case) {
 		return // not a domain of the property
 	}
 	desc := c16Desc(sc)
+	if pre != nil {
+		desc += pre.note
+	}
 	viol := func(kind, msg string, xs, ys []float64) {
 		cc := c
+		if pre != nil {
+			cc = pre.outer
+			cc.Ts, cc.Ds = nil, nil
+		}
 		cc.Xs, cc.Ys = mon.Fs(xs), mon.Fs(ys)
 		w.Violate(kind, msg, cc)
 	}
-	q, ok := c16Build(w, sc, func(kind, msg string) { viol(kind, msg, nil, nil) })
-	if !ok {
+	var q scale.Quantitative
+	var ok bool
+	if pre != nil {
+		q = pre.q
+	} else if q, ok = c16Build(w, sc, func(kind, msg string) { viol(kind, msg, nil, nil) }); !ok {
 		return
 	}
 	var twin scale.Quantitative // the same scale without clamping
@@ -401,7 +435,7 @@ func c16JudgeScale(w *mon.W, c c16Case) {
 	nearDeg := !deg && math.Abs(max-min) <= 4*math.Abs(math.Nextafter(min, math.Inf(1))-min)
 	w.HitIf(nearDeg, name+":near-degenerate")
 	w.HitIf(sc.Clamp, name+":clamp-on")
-	w.HitIf(sc.How >= 3 && sc.Log && min < max, "Log:via-NewLog")
+	w.HitIf(sc.How >= 3 && pre == nil && sc.Log && min < max, "Log:via-NewLog")
 	w.HitIf(sc.Log && c16Base(sc) != 10, "Log:base-not-10")
 	// Inside the unresolvable window the end points are still judged exactly
 	// when the logarithms of |Min| and |Max| are at least 3 ulps apart (in
@@ -469,6 +503,24 @@ func c16JudgeScale(w *mon.W, c c16Case) {
 				viol("log-unresolvable-nan", fmt.Sprintf("%s.Map(%v)=NaN for a valid input (domain narrower than the logarithm resolves)", desc, x), one, nil)
 				continue
 			}
+			// The quantifier covers x within 100 widths of the domain: the two
+			// requirements below are made there only.
+			within := math.Abs(ref.F64(R.MapBig(x))) <= 101.5
+			if within && math.IsInf(got, 0) {
+				viol("log-unresolvable-nan", fmt.Sprintf("%s.Map(%v)=%v for a valid input within 100 widths of the domain (domain narrower than the logarithm resolves)", desc, x, got), one, nil)
+				continue
+			}
+			// Confinement under Clamp does not depend on how well the
+			// logarithm resolves the domain: clamping is the last step of
+			// every correct Map.
+			if sc.Clamp && (within || !collide) {
+				w.HitIf(!R.Inside(x), "Log:unresolvable-clamp-outside")
+				w.HitIf(collide && !R.Inside(x), "Log:collide-clamp-outside")
+				if !(got >= 0 && got <= 1) {
+					viol("clamp-confine", fmt.Sprintf("%s.Map(%v)=%v is outside [0,1] (Clamp on; domain narrower than the logarithm resolves)", desc, x, got), one, nil)
+					continue
+				}
+			}
 			if collide {
 				w.Ambiguous()
 				continue
@@ -486,9 +538,6 @@ func c16JudgeScale(w *mon.W, c c16Case) {
 				}
 			default:
 				w.Ambiguous()
-			}
-			if sc.Clamp && !(got >= 0 && got <= 1) {
-				viol("clamp-confine", fmt.Sprintf("%s.Map(%v)=%v is outside [0,1]", desc, x, got), one, nil)
 			}
 			narrow = append(narrow, xg{x, got})
 			continue
@@ -537,6 +586,11 @@ func c16JudgeScale(w *mon.W, c c16Case) {
 			c16HitExtreme(w, x)
 		}
 		tol := R.MapTol(x, y)
+		if d := math.Min(math.Abs(y), math.Abs(y-1)); x != min && x != max && d <= 1e-3 && d > 2*tol {
+			// close to an end point, but farther from it than the tolerance
+			w.Hit(name + ":x-near-bound")
+			w.HitIf(d < 1e-9, name+":x-very-near-bound")
+		}
 		mapOK := w.Err(name+".Map", math.Abs(got-ye), tol)
 		if !mapOK {
 			viol("map", fmt.Sprintf("%s.Map(%v)=%.17g, the affine map gives %.17g (tol %.3g)", desc, x, got, ye, tol), one, nil)
@@ -626,6 +680,9 @@ func c16JudgeScale(w *mon.W, c c16Case) {
 			continue
 		}
 		w.HitIf(y < 0 || y > 1, name+":unmap-beyond-[0,1]")
+		if d := math.Min(math.Abs(y), math.Abs(y-1)); d > 0 && d < 1e-12 {
+			w.Hit(name + ":unmap-near-bound")
+		}
 		tolX := R.UnmapTol(y, x)
 		if !w.Err(name+".Unmap", math.Abs(got-x), tolX) {
 			viol("unmap", fmt.Sprintf("%s.Unmap(%v)=%.17g, the inverse affine map gives %.17g (tol %.3g)", desc, y, got, x, tolX), nil, one)
@@ -697,6 +754,104 @@ func c16JudgeScale(w *mon.W, c c16Case) {
 		p := pts[len(pts)/2]
 		w.Sample(map[string]any{"scale": desc, "x": p.x, "Map": p.got, "reference": p.ye, "tol": p.tol, "points": len(c.Xs) + len(c.Ys)})
 	}
+}
+
+// c16JudgeNice: the object is built on the domain of c.A, the library's own
+// domain mutator Nice(TickOptions{Max: N}) runs, and Map/Unmap are judged
+// against the reference of the domain the object reports AFTERWARDS (its
+// exported Min/Max): a scale describes its current Min/Max whatever ran on
+// the object before. What Nice chooses is not judged here (C17); a niced
+// domain outside the quantifier box, degenerate or invalid is skipped.
+func c16JudgeNice(w *mon.W, c c16Case) {
+	sc := c.A
+	a, b := float64(sc.Min), float64(sc.Max)
+	if _, err := ref.NewScaleRef(sc.Log, a, b); err != nil || c.N < 1 {
+		return
+	}
+	name, base := c16Name(sc), c16Base(sc)
+	hist := fmt.Sprintf("%s then Nice(TickOptions{Max:%d})", c16Desc(sc), c.N)
+	var q scale.Quantitative
+	var nice func(scale.TickOptions)
+	var read func() (float64, float64)
+	if sc.Log {
+		lg := &scale.Log{Min: a, Max: b, Base: base}
+		if c.Pre&1 == 1 {
+			var s scale.Log
+			var err error
+			w.Eval("NewLog")
+			if p, v := mon.Call(func() { s, err = scale.NewLog(a, b, base) }); p {
+				w.Violate("panic", fmt.Sprintf("NewLog(%v,%v,%d) panicked: %v", a, b, base, v), c)
+				return
+			}
+			if err != nil {
+				w.Violate("newlog-reject", fmt.Sprintf("NewLog(%v,%v,%d) rejected a finite range that excludes 0: %v", a, b, base, err), c)
+				return
+			}
+			lg = &s
+		}
+		q, nice, read = lg, lg.Nice, func() (float64, float64) { return lg.Min, lg.Max }
+	} else {
+		l := &scale.Linear{Min: a, Max: b}
+		q, nice, read = l, l.Nice, func() (float64, float64) { return l.Min, l.Max }
+	}
+	setClamp := func() bool {
+		w.Eval(name + ".SetClamp")
+		if p, v := mon.Call(func() { q.SetClamp(sc.Clamp) }); p {
+			w.Violate("panic", fmt.Sprintf("%s: SetClamp(%v) panicked: %v", hist, sc.Clamp, v), c)
+			return false
+		}
+		return true
+	}
+	if c.Pre&2 == 2 && !setClamp() {
+		return
+	}
+	if c.Pre&4 == 4 {
+		if p, v := mon.Call(func() { q.Map(c16At(sc.Log, a, b, 0.25)); q.Unmap(0.75) }); p {
+			w.Violate("panic", fmt.Sprintf("%s: Map/Unmap before Nice panicked: %v", hist, v), c)
+			return
+		}
+	}
+	if p, _ := mon.Call(func() { nice(scale.TickOptions{Max: c.N}) }); p {
+		w.Note("nice:skipped-Nice-panicked(C17)")
+		return
+	}
+	if c.Pre&2 == 0 && !setClamp() {
+		return
+	}
+	min, max := read()
+	inBox := func(v float64) bool { return c16Finite(v) && math.Abs(v) >= 1e-12 && math.Abs(v) <= 1e12 }
+	if !inBox(min) || !inBox(max) || min == max {
+		w.Note("nice:skipped-niced-domain-outside-box-or-degenerate")
+		return
+	}
+	if _, err := ref.NewScaleRef(sc.Log, min, max); err != nil {
+		w.Note("nice:skipped-niced-domain-invalid")
+		return
+	}
+	w.Hit(name + ":after-Nice")
+	w.HitIf(min != a || max != b, name+":after-Nice-domain-moved")
+	if sc.Log {
+		// tick level above 0 (from the inputs): more whole powers of Base
+		// around the domain than the N ticks allowed
+		lo, hi := math.Min(math.Abs(a), math.Abs(b)), math.Max(math.Abs(a), math.Abs(b))
+		lb := math.Log(float64(base))
+		nd := math.Ceil(math.Log(hi)/lb) - math.Floor(math.Log(lo)/lb) + 1
+		w.HitIf(nd > float64(c.N)+0.5, "Log:after-Nice-coarser-level")
+		w.HitIf(c.Pre&1 == 1, "Log:after-Nice-via-NewLog")
+		w.HitIf(min < 0, "Log:after-Nice-negative")
+	}
+	xs := mon.Un(c.Xs)
+	if len(c.Ts)+len(c.Ds) > 0 {
+		xs = []float64{min, max}
+		for _, t := range c.Ts {
+			xs = append(xs, c16At(sc.Log, min, max, float64(t)))
+		}
+		for _, d := range c.Ds {
+			xs = append(xs, c16Near(sc.Log, min, max, false, float64(d)), c16Near(sc.Log, min, max, true, float64(d)))
+		}
+	}
+	inner := c16Case{Kind: "scale", A: c16Scale{Log: sc.Log, Min: mon.F(min), Max: mon.F(max), Clamp: sc.Clamp, How: 12, Base: sc.Base}, Xs: mon.Fs(xs), Ys: c.Ys}
+	c16JudgeScaleObj(w, inner, &c16Pre{q: q, outer: c, note: " [domain read back after " + hist + "]"})
 }
 
 func c16JudgeQQ(w *mon.W, c c16Case) {
@@ -1082,6 +1237,31 @@ func c16At(isLog bool, min, max, t float64) float64 {
 	return math.Copysign(a, min)
 }
 
+// c16Near returns the point at the signed affine offset d from an end point
+// (Min, or Max with atMax): its image is about d, resp. 1+d.
+func c16Near(isLog bool, min, max float64, atMax bool, d float64) float64 {
+	b := min
+	if atMax {
+		b = max
+	}
+	if !isLog {
+		return b + d*(max-min)
+	}
+	x := b + b*math.Expm1(d*(math.Log(math.Abs(max))-math.Log(math.Abs(min))))
+	if x == 0 || !c16Finite(x) || (x < 0) != (b < 0) {
+		return b
+	}
+	return x
+}
+
+// c16NearPoints: four arguments at intermediate distances (1e-15..1e-3 in
+// the image) from the end points, inside and outside the domain.
+func c16NearPoints(rng *mon.Rand, isLog bool, min, max float64) []float64 {
+	d := func() float64 { return rng.LogUniform(1e-15, 1e-3) }
+	return []float64{c16Near(isLog, min, max, false, d()), c16Near(isLog, min, max, false, -d()),
+		c16Near(isLog, min, max, true, -d()), c16Near(isLog, min, max, true, d())}
+}
+
 func c16Points(rng *mon.Rand, isLog bool, min, max float64, reach float64) []float64 {
 	up, down := math.Inf(1), math.Inf(-1)
 	xs := []float64{min, max,
@@ -1096,16 +1276,19 @@ func c16Points(rng *mon.Rand, isLog bool, min, max float64, reach float64) []flo
 }
 
 func c16Run(r *mon.Run) {
-	r.Rule("Linear and Log domains with |Min|,|Max| in [1e-12,1e12] (generic, narrow, near-degenerate, degenerate, corners, symmetric/integers/decades, huge ratio; both orders; both signs for Log), Clamp on/off set by field, SetClamp or NewLog, Log bases 2, 3, 5, 10, 16; x = Min, Max, their neighbours, inside, up to 100 widths outside (for Log: widths in ln|x|, up to MaxFloat64 and down to the subnormals), zero and wrong-sign x for Log; y in [-5,5]; histories of the object: built directly, SetClamp once/twice, via NewLog, another domain first and Min/Max assigned afterwards followed by SetClamp, or assigned LAST (after NewLog/SetClamp/Map ran on other field values: both ends, one end only, twice in a row, no SetClamp at all) with the judged calls directly after the assignment; QQ over the 4 pairings x 4 clamp settings, with degenerate source and/or destination in 3 of 16 blocks, Dest the same object as Src or an equal-field copy (clamp on/off, degenerate or not) in 4 of 16 blocks, zero/wrong-sign x through a Log source; NewLog over a 12x12x11 grid of end points and bases plus random ones, Map/Unmap of every accepted scale spot-checked against the reference. Non-trivial: hits a class (reversed, negative, (near-)degenerate, clamp active, beyond domain, QQ pairing, NewLog branch); distinct by hash of (scale(s), points).")
+	r.Rule("Linear and Log domains with |Min|,|Max| in [1e-12,1e12] (generic, narrow, near-degenerate, degenerate, corners, symmetric/integers/decades, huge ratio; both orders; both signs for Log), Clamp on/off set by field, SetClamp or NewLog, Log bases 2, 3, 5, 10, 16; x = Min, Max, their neighbours, points at intermediate distances (1e-15..1e-3 in the image) from both end points inside and outside, inside, up to 100 widths outside (for Log: widths in ln|x|, up to MaxFloat64 and down to the subnormals), zero and wrong-sign x for Log; y in [-5,5]; histories of the object: built directly, SetClamp once/twice, via NewLog, another domain first and Min/Max assigned afterwards followed by SetClamp, or assigned LAST (after NewLog/SetClamp/Map ran on other field values: both ends, one end only, twice in a row, no SetClamp at all) with the judged calls directly after the assignment, or put through the library's own Nice(TickOptions{Max:1..6}) (Linear and Log, built by literal or NewLog, SetClamp before or after, used before or not) and judged against the Min/Max the object reports afterwards (skipped when that domain leaves the box or is degenerate); QQ over the 4 pairings x 4 clamp settings, with degenerate source and/or destination in 3 of 16 blocks, Dest the same object as Src or an equal-field copy (clamp on/off, degenerate or not) in 4 of 16 blocks, zero/wrong-sign x through a Log source; NewLog over a 12x12x11 grid of end points and bases plus random ones, Map/Unmap of every accepted scale spot-checked against the reference. Non-trivial: hits a class (reversed, negative, (near-)degenerate, clamp active, beyond domain, QQ pairing, NewLog branch); distinct by hash of (scale(s), points).")
 	r.Assume("reference: affine map in x / ln|x| in 384-bit arithmetic (own exp/log), self-tested at start-up",
 		"tolerances (policy b): Linear Unmap 8eps(|x|+(1+|y|)max(|Min|,|Max|)), Log Unmap relative 8eps(1+|y|)(1+|ln x|+|ln Min|+|ln Max|); Log Map: the same carried through the slope + 4eps|y|; Linear Map: 8eps|y|+4eps|1-y| (x-Min and Max-Min are single roundings of the inputs: direct, reciprocal-multiply and lerp forms all reach it; a slope/intercept form x*k-Min*k does not); round trips: sum of the two",
 		"non-degenerate Linear domain (Min!=Max as floats, however narrow): Map(Min)=0 exactly, |Map(Max)-1|<=4eps, Map(Min)!=Map(Max)",
 		"a scale describes its exported Min/Max as they are at the time of the call, whatever ran on the object before; QQ's reference composition Dest.Unmap(Src.Map(x)) is the same whether Dest is Src itself, an equal copy or another scale; for zero/wrong-sign x of a non-clamping Log source QQ must return what the destination's own Unmap returns for NaN",
-		"Log domains with ln|Max|-ln|Min| <= 8eps(1+|ln Min|+|ln Max|) are unresolvable in double precision logarithms: Map values there are counted ambiguous and not judged, except that when the logarithms of |Min| and |Max| are at least 3 ulps apart (ln|Max|-ln|Min| >= 3eps max|ln|, the same in every base), Map(Min)=0 and Map(Max)=1 exactly, [0,1] confinement under Clamp and weak monotonicity are still required",
+		"Log domains with ln|Max|-ln|Min| <= 8eps(1+|ln Min|+|ln Max|) are unresolvable in double precision logarithms: Map values there are counted ambiguous and not judged, except that when the logarithms of |Min| and |Max| are at least 3 ulps apart (ln|Max|-ln|Min| >= 3eps max|ln|, the same in every base), Map(Min)=0 and Map(Max)=1 exactly and weak monotonicity are still required; in the whole window a valid x within 100 widths maps to a finite number and, with Clamp on, into [0,1] (clamping is the last step of every correct Map, whatever the logarithm resolves)",
 		"QQ with a degenerate scale: a degenerate source maps every valid input to 0.5, so QQ.Map(x) is Dest.Unmap(0.5); a degenerate destination unmaps everything to its Min; no inverse law there",
 		"Unmap outside [0,1] of a clamping scale is undefined (scale.Quantitative) and not judged; a clamping Log may return NaN or a confined value for zero/wrong-sign x",
 		"NewLog is exercised with finite arguments only")
-	r.Gate("Linear:reassigned-then-used-directly", "Log:reassigned-then-used-directly", "reassigned:one-end-only", "reassigned:twice-in-a-row", "reassigned:after-Map-without-any-SetClamp",
+	r.Gate("Linear:x-near-bound", "Log:x-near-bound", "Linear:x-very-near-bound", "Log:x-very-near-bound", "Linear:unmap-near-bound", "Log:unmap-near-bound",
+		"Linear:after-Nice", "Log:after-Nice", "Linear:after-Nice-domain-moved", "Log:after-Nice-domain-moved", "Log:after-Nice-coarser-level", "Log:after-Nice-via-NewLog", "Log:after-Nice-negative",
+		"Log:unresolvable-clamp-outside", "Log:collide-clamp-outside",
+		"Linear:reassigned-then-used-directly", "Log:reassigned-then-used-directly", "reassigned:one-end-only", "reassigned:twice-in-a-row", "reassigned:after-Map-without-any-SetClamp",
 		"Linear:endpoint-Min-exact", "Linear:endpoint-Max", "Linear:near-degenerate-endpoint",
 		"qq:dest-is-src-object", "qq:dest-equal-copy", "qq:alias-clamp-active", "qq:alias-degenerate", "qq:log-invalid-x", "qq:alias-log-invalid-x",
 		"domain-reassigned-after-construction", "Linear:reversed", "Log:reversed", "Log:negative", "Log:negative-reversed",
@@ -1127,7 +1310,7 @@ func c16Run(r *mon.Run) {
 
 	ys := func(rng *mon.Rand) []float64 {
 		return []float64{0, 1, 0.5, rng.Float64(), rng.Float64(), rng.Uniform(-5, 5), rng.Uniform(-5, 5), -5, 5,
-			rng.Sign() * rng.LogUniform(1e-12, 1e-3), 1 + rng.Sign()*rng.LogUniform(1e-12, 1e-3)}
+			rng.Sign() * rng.LogUniform(1e-15, 1e-3), 1 + rng.Sign()*rng.LogUniform(1e-15, 1e-3)}
 	}
 
 	r.Parallel("linear", r.Pick(6000, 60000), func(w *mon.W, i int) {
@@ -1135,6 +1318,7 @@ func c16Run(r *mon.Run) {
 		min, max := c16Domain(rng, i, false)
 		sc := c16Scale{Min: mon.F(min), Max: mon.F(max), Clamp: (i/8)%2 == 1, How: rng.PickI(0, 1, 2, 5, 6, 7, 8, 9, 10, 11)}
 		xs := c16Points(rng, false, min, max, 100)
+		xs = append(xs, c16NearPoints(rng, false, min, max)...)
 		xs = append(xs, 0, rng.Sign()*c16Mag(rng))
 		c16Judge(w, c16Case{Kind: "scale", A: sc, Xs: mon.Fs(xs), Ys: mon.Fs(ys(rng))})
 	})
@@ -1144,6 +1328,7 @@ func c16Run(r *mon.Run) {
 		min, max := c16Domain(rng, i, true)
 		sc := c16Scale{Log: true, Min: mon.F(min), Max: mon.F(max), Clamp: (i/8)%2 == 1, How: rng.Intn(12), Base: c16PickBase(rng)}
 		xs := c16Points(rng, true, min, max, 100)
+		xs = append(xs, c16NearPoints(rng, true, min, max)...)
 		s := math.Copysign(1, min)
 		xs = append(xs, s*c16ClipX(rng.LogUniform(1e-14, 1e14)), s*1e-14, s*1e14,
 			0, math.Copysign(0, -1), -min, -max, -s*c16Mag(rng), -s*rng.Pick(1e-14, 1e14, math.MaxFloat64, math.SmallestNonzeroFloat64))
@@ -1203,6 +1388,33 @@ func c16Run(r *mon.Run) {
 		xs := pts(S)
 		ps := pts(D)
 		c16Judge(w, c16Case{Kind: "qq", A: S, B: &D, Alias: alias, Xs: mon.Fs(xs), Ys: mon.Fs(ps)})
+	})
+
+	// history through the library's own domain mutator Nice
+	r.Parallel("nice", r.Pick(1600, 16000), func(w *mon.W, i int) {
+		rng := w.Rng
+		isLog := i&1 == 1
+		var min, max float64
+		if isLog {
+			min, max = c16Domain(rng, rng.PickI(0, 1, 5, 6, 7, 7), true)
+		} else {
+			// Nice rounds the domain out to multiples of the tick spacing: one
+			// that reaches down to 0 leaves the quantifier box, so most Linear
+			// domains here are narrow compared with their distance from 0
+			min, max = c16Domain(rng, rng.PickI(0, 2, 2, 6), rng.Intn(4) != 0)
+			if rng.Bool() {
+				min = c16ClipMag(rng.Sign() * c16Mag(rng))
+				max = c16ClipMag(min * (1 + rng.Sign()*rng.LogUniform(1e-6, 0.9)))
+			}
+		}
+		sc := c16Scale{Log: isLog, Min: mon.F(min), Max: mon.F(max), Clamp: (i/2)%2 == 1, How: 12, Base: c16PickBase(rng)}
+		if !isLog {
+			sc.Base = 0
+		}
+		ts := []float64{0.5, rng.Float64(), rng.Float64(), rng.Uniform(-4, 0), rng.Uniform(1, 5), rng.Uniform(-100, 101)}
+		ds := []float64{rng.LogUniform(1e-15, 1e-3), -rng.LogUniform(1e-15, 1e-3)}
+		c16Judge(w, c16Case{Kind: "nice", A: sc, N: rng.Range(1, 6), Pre: rng.Intn(8), Ts: mon.Fs(ts), Ds: mon.Fs(ds),
+			Ys: mon.Fs([]float64{0, 1, 0.5, rng.Float64(), rng.Uniform(-5, 5), rng.Sign() * rng.LogUniform(1e-15, 1e-3), 1 + rng.Sign()*rng.LogUniform(1e-15, 1e-3)})})
 	})
 
 	// NewLog: enumerated grid
